@@ -254,6 +254,7 @@ func cmdCheck(args []string) int {
 	bySolver := map[string]int{}
 	var otherFailing []string
 	var knownHit []string
+	replaysDone := 0
 	for _, o := range allObls {
 		solverSecs += o.Secs
 		rep := oblReport{Function: shortFn(o.Fn), Obligation: o.Name, Kind: o.Kind, Clause: trunc(o.Text, 200), Status: o.Status, Solver: o.Solver, Seconds: o.Secs, SMTFile: o.SMTFile}
@@ -289,7 +290,13 @@ func cmdCheck(args []string) int {
 			"seconds": o.Secs, "smt_file": o.SMTFile, "solver_output": trunc(o.Model, 4000)}
 		noInput := true
 		haveModel := o.Status == "sat" && !o.ExpectSat
-		if !o.ExpectSat && !*noReplay {
+		// replay budget: postconditions first, at most a few per run (each replay costs several
+		// solver queries and a go test run)
+		replayThis := !*noReplay && o.Kind == "ensures" && replaysDone < 4 && time.Since(t0) < 8*time.Minute
+		if replayThis {
+			replaysDone++
+		}
+		if !o.ExpectSat && replayThis {
 			// a candidate counterexample: the solver's own model, or one found with the quantified
 			// assumptions dropped; either way it only counts if it replays on the real code
 			o.relaxed = true
@@ -302,7 +309,7 @@ func cmdCheck(args []string) int {
 			}
 		}
 		if haveModel {
-			if !*noReplay {
+			if replayThis {
 				res := replayObligation(eng, o, "", *repo, outDir)
 				o.relaxed = false
 				body["replay"] = res
